@@ -310,18 +310,38 @@ def h_resize(cl, n, mode):
             for v in (s.a, s.b, s.psf_a, s.psf_b):
                 c.assume(v.e > 0)
         before = [(s.a, s.b) for s in srcs]
-        if mode == 'one':
+        if mode in ('one', 'one-psf'):
             ratio = 1
         else:
             ratio = real('ratio')
             c.assume(ratio.e >= 1)
         Src.LOG = []
-        out = cl.resize(srcs, ratio=ratio, psfhelper=None)
-        tag = 'resize[n=%d,ratio %s]' % (n, '= 1' if mode == 'one' else '>= 1')
+        helper = None
+        if mode == 'one-psf':
+            # the way priorized fitting calls it: ratio together with a psf helper whose beams differ from the catalogue's
+            class Beam3:
+                def __init__(self, a, b, pa):
+                    self.a, self.b, self.pa = a, b, pa
+
+            class PH:
+                def get_psf_sky2sky(self, ra, dec):
+                    return (real('hp_a'), real('hp_b'), real('hp_pa'))
+
+                def get_skybeam(self, ra, dec):
+                    return Beam3(real('im_a'), real('im_b'), real('im_pa'))
+            for nm in ('hp_a', 'hp_b', 'im_a', 'im_b'):
+                c.assume(real(nm).e > 0)
+            cl.Beam = Beam3
+            helper = PH()
+        out = cl.resize(srcs, ratio=ratio, psfhelper=helper)
+        if mode == 'one-psf':
+            tag = 'resize[n=%d,ratio = 1 with a psf helper]' % n
+        else:
+            tag = 'resize[n=%d,ratio %s]' % (n, '= 1' if mode == 'one' else '>= 1')
         c.oblige(tag + ':every source returned, in order', z3.BoolVal([s._k for s in out] == list(range(n))))
         c.oblige(tag + ':only a and b are written', z3.BoolVal(all(a in ('a', 'b') for _, a in Src.LOG)))
         for s, (a0, b0) in zip(srcs, before):
-            if mode == 'one':
+            if mode in ('one', 'one-psf'):
                 c.oblige(tag + ':identity', z3.And(core.lift(s.a) == a0.e, core.lift(s.b) == b0.e))
             else:
                 c.oblige(tag + ':never shrinks a source', z3.And(core.lift(s.a) >= a0.e, core.lift(s.b) >= b0.e), timeout_ms=60000)
@@ -350,6 +370,9 @@ def oracle(seed=1, trials=60):
             s.a, s.b, s.pa = 30.0, 20.0, 0.0
             s.uuid = 'u%d' % k
             srcs.append(s)
+        if n >= 2 and rng.random() < 0.3:
+            # duplicate positions (bit-identical), isolated or not
+            srcs[-1].ra, srcs[-1].dec = srcs[0].ra, srcs[0].dec
         eps = float(real_np.sin(real_np.radians(eps_arcmin / 60)))
 
         def sep(a, b):
@@ -382,6 +405,16 @@ def oracle(seed=1, trials=60):
     out = cl.resize([s], ratio=1.0)
     if len(out) != 1 or abs(out[0].a - 40.0) > 1e-9 or abs(out[0].b - 30.0) > 1e-9:
         return True, 'resize-identity', 'resize(ratio=1) changed the source: %s' % ([(o.a, o.b) for o in out],)
+    class _PH:
+        def get_psf_sky2sky(self, ra, dec):
+            return (45.0 / 3600, 35.0 / 3600, 0.0)
+
+        def get_skybeam(self, ra, dec):
+            return cl.Beam(60.0 / 3600, 40.0 / 3600, 0.0)
+    s.a, s.b = 40.0, 30.0
+    out = cl.resize([s], ratio=1, psfhelper=_PH())
+    if len(out) != 1 or abs(out[0].a - 40.0) > 1e-9 or abs(out[0].b - 30.0) > 1e-9:
+        return True, 'resize-identity', 'resize(ratio=1, psfhelper=...) changed the source: %s' % ([(o.a, o.b) for o in out],)
     s.a, s.b = 40.0, 30.0
     out = cl.resize([s], ratio=1.7)
     if len(out) != 1 or out[0].a < 40.0 or out[0].b < 30.0:
@@ -485,8 +518,8 @@ def run(rep):
                     rep.finding('C19/K-eps/%s' % (cls or where), dict(kind='eps', where=where), detail or ob['name'], reproduced=bad)
             rep.sample(dict(kernel='K-eps', where=where, obligations=[(o['name'], o['result']) for o in r['obligations']]))
     rep.end_kernel()
-    rep.kernel('K-resize', functions=[F + ':resize'], bounds='1-2 sources with symbolic positive sizes and psf sizes; ratio = 1 and symbolic ratio >= 1', stubs=['np.sqrt -> radical'])
-    for n, mode in ((1, 'one'), (2, 'one'), (1, 'sym'), (2, 'sym')):
+    rep.kernel('K-resize', functions=[F + ':resize'], bounds='1-2 sources with symbolic positive sizes and psf sizes; ratio = 1 (without and with a psf helper of arbitrary beams) and symbolic ratio >= 1', stubs=['np.sqrt -> radical'])
+    for n, mode in ((1, 'one'), (2, 'one'), (1, 'one-psf'), (2, 'one-psf'), (1, 'sym'), (2, 'sym')):
         st, res = explore(h_resize(cl, n, mode))
         rep.stats(st)
         handle(rep, res, 'K-resize')
